@@ -175,7 +175,21 @@ static std::vector<Ctor> make_ctors() {
 }
 
 // tuples: every tuple differing from a base in at most `maxsub` positions (or the full product when small)
+static void enumerate0(const Ctor& c, bool T, std::vector<std::vector<double>>& out, std::string& how);
+// the tuples with a singles-only value (each costs the 2 s watchdog while the EllipticFunction hang is open) are
+// spread evenly through the list so that they land in different units, i.e. on different shards
 static void enumerate(const Ctor& c, bool T, std::vector<std::vector<double>>& out, std::string& how) {
+  std::vector<std::vector<double>> all; enumerate0(c, T, all, how);
+  std::vector<std::vector<double>> normal, hostile;
+  for (auto& t : all) { bool h = false; for (size_t i = 0; i < t.size(); ++i) for (double x : singles_only(c.kinds[i])) if (mc::same_bits(x, t[i])) h = true; (h ? hostile : normal).push_back(t); }
+  size_t k = 0;
+  for (size_t i = 0; i < normal.size(); ++i) {
+    while (k < hostile.size() && (k + 1) * normal.size() / (hostile.size() + 1) <= i) out.push_back(hostile[k++]);
+    out.push_back(normal[i]);
+  }
+  while (k < hostile.size()) out.push_back(hostile[k++]);
+}
+static void enumerate0(const Ctor& c, bool T, std::vector<std::vector<double>>& out, std::string& how) {
   const size_t n = c.kinds.size();
   std::set<std::vector<uint64_t>> seen;
   auto push = [&](const std::vector<double>& t) { std::vector<uint64_t> k; for (double x : t) k.push_back(mc::bits(x)); if (seen.insert(k).second) out.push_back(t); };
@@ -217,7 +231,7 @@ int main(int argc, char** argv) {
   ctx.bound("ctor.constructors", (long long)R.size());
   fault::Isolator iso(g_dir, "ctor");
   iso.batch = 256; iso.slot_bytes = 2048;
-  const size_t UNIT = 256;
+  const size_t UNIT = 32;
   for (auto& c : R) {
     ctx.sub("ctor-" + c.name);
     std::vector<std::vector<double>> tuples; std::string how;
